@@ -230,8 +230,15 @@ func init() {
 		e.assume(st, and("(<= (str.len "+v.T+") (str.len "+a[0].T+"))", "(str.contains "+a[0].T+" "+v.T+")"))
 		return v, true
 	}
-	for _, n := range []string{"TrimSpace", "Trim", "TrimLeft", "TrimRight", "TrimFunc", "TrimLeftFunc", "TrimRightFunc"} {
+	for _, n := range []string{"Trim", "TrimLeft", "TrimRight", "TrimFunc", "TrimLeftFunc", "TrimRightFunc"} {
 		H["strings."+n] = trimLike
+	}
+	// strings.TrimSpace: a function of its argument (a substring, not longer than it)
+	H["strings.TrimSpace"] = func(e *Engine, fc *fnCtx, st *State, c *ssa.CallCommon, a []Val, r types.Type) (Val, bool) {
+		e.sc.declareFun("trimSpace", []string{"String"}, "String")
+		v := e.sc.define("trim", "String", "(trimSpace "+a[0].T+")")
+		e.assume(st, and("(<= (str.len "+v+") (str.len "+a[0].T+"))", "(str.contains "+a[0].T+" "+v+")"))
+		return Val{T: v, S: "String", GoT: tString}, true
 	}
 	caseFn := func(name string) stdHandler {
 		return func(e *Engine, fc *fnCtx, st *State, c *ssa.CallCommon, a []Val, r types.Type) (Val, bool) {
